@@ -1,8 +1,14 @@
 package main
 
 import (
+	"bufio"
+	"encoding/json"
 	"fmt"
+	"os"
+	"strings"
 	"sync"
+	"sync/atomic"
+	"time"
 
 	"github.com/tucats/ego/internal/builtins"
 	"github.com/tucats/ego/internal/cli/settings"
@@ -10,6 +16,9 @@ import (
 	"github.com/tucats/ego/internal/errors"
 	"github.com/tucats/ego/internal/language/bytecode"
 	"github.com/tucats/ego/internal/language/compiler"
+	"github.com/tucats/ego/internal/language/parse"
+	"github.com/tucats/ego/internal/language/parse/ast"
+	"github.com/tucats/ego/internal/language/parse/format"
 	"github.com/tucats/ego/internal/language/symbols"
 	"github.com/tucats/ego/internal/language/tokenizer"
 	"github.com/tucats/ego/internal/runtime/profile"
@@ -28,38 +37,67 @@ func setup() {
 	})
 }
 
-// run compiles and executes one program the way `ego run file` does and
-// returns what it printed plus the error that ended it.
-func run(src string) (out string) {
+const (
+	compilePrefix = "COMPILE: "
+	runPrefix     = "\nRUN: "
+)
+
+// runText compiles and executes one source text in this process and returns
+// what it printed followed by the error that ended it. A program (frag=false)
+// is handled the way `ego run file` handles a named file (the text plus
+// "@entrypoint main", non-interactive compiler); a fragment the way
+// `ego run` handles a piped program (interactive compiler, "@line 1;" in
+// front, no entry point). The result starts with COMPILE: when the compiler
+// does not accept the text.
+func runText(src string, frag bool) (out string) {
 	var ctx *bytecode.Context
 
 	defer func() {
 		if r := recover(); r != nil {
+			if ctx != nil {
+				out = ctx.GetOutput()
+			}
+
 			out += fmt.Sprintf("\nGO-PANIC: %v", r)
 		}
 	}()
 
-	st := symbols.NewSymbolTable("file verif.ego").Shared(true)
+	name := "file verif.ego"
+	label := "main 'verif.ego'"
+	text := src + "\n@entrypoint main"
+
+	if frag {
+		name = "file <stdin>"
+		label = "main '<stdin>'"
+		text = "@line 1;\n" + src
+	}
+
+	st := symbols.NewSymbolTable(name).Shared(true)
 	st.SetAlways(defs.TypeCheckingVariable, defs.NoTypeEnforcement)
-	st.SetAlways(defs.ModeVariable, "run")
+
+	if frag {
+		st.SetAlways(defs.ModeVariable, "interactive")
+	} else {
+		st.SetAlways(defs.ModeVariable, "run")
+	}
 
 	comp := compiler.New("run").
 		SetNormalization(settings.GetBool(defs.CaseNormalizedSetting)).
 		SetExitEnabled(false).
 		SetRoot(&symbols.RootSymbolTable).
-		SetInteractive(false)
+		SetInteractive(frag)
 
-	t := tokenizer.New(src+"\n@entrypoint main", true)
+	t := tokenizer.New(text, true)
 
 	comp.Fragment(true)
 
-	b, err := comp.Compile("main 'verif.ego'", t)
+	b, err := comp.Compile(label, t)
 	if !errors.Nil(err) {
-		return "COMPILE: " + err.Error()
+		return compilePrefix + err.Error()
 	}
 
 	if b == nil {
-		return "COMPILE: no code"
+		return compilePrefix + "no code"
 	}
 
 	t.Close()
@@ -74,10 +112,243 @@ func run(src string) (out string) {
 
 	out = ctx.GetOutput()
 	if err != nil {
-		out += "\nRUN: " + err.Error()
+		out += runPrefix + err.Error()
 	}
 
 	_, _ = comp.Close()
 
 	return out
+}
+
+// render is `ego fmt` as a function: mode "program" (--program), "fragment"
+// (--fragment) or "auto" (no flag).
+func render(src, mode string) (out string, err error) {
+	defer func() {
+		if r := recover(); r != nil {
+			err = fmt.Errorf("GO-PANIC in the formatter: %v", r)
+		}
+	}()
+
+	// the body of commands.renderSource / parseSource (internal/commands/fmt.go)
+	var file *ast.File
+
+	switch mode {
+	case "fragment":
+		file, err = parse.ParseStatements(src)
+	case "program":
+		file, err = parse.ParseProgram(src)
+	default:
+		file, err = parse.ParseAuto(src)
+	}
+
+	if err != nil {
+		return "", err
+	}
+
+	return format.FileWithOptions(file, format.Options{})
+}
+
+// Job is one source text to judge.
+type Job struct {
+	ID   int    `json:"id"`
+	Src  string `json:"src"`
+	Frag bool   `json:"frag"`
+}
+
+// Finding is one way a text violates the statement.
+type Finding struct {
+	Kind   string `json:"kind"` // fmt-fails | changes-program | not-idempotent | comment-lost
+	Mode   string `json:"mode"`
+	Detail string `json:"detail"`
+	Fmt    string `json:"formatted,omitempty"`
+}
+
+// Res is the judgement of one text.
+type Res struct {
+	ID       int       `json:"id"`
+	Accepted bool      `json:"accepted"`
+	Reject   string    `json:"reject,omitempty"`
+	Changed  bool      `json:"changed"` // the formatter changed the text
+	Runs     int       `json:"runs"`
+	Findings []Finding `json:"findings,omitempty"`
+	Died     string    `json:"died,omitempty"` // the worker did not survive this text (phase)
+}
+
+func clip(s string, n int) string {
+	if len(s) > n {
+		return s[:n] + "..."
+	}
+
+	return s
+}
+
+var phase atomic.Value // string: what the worker is doing right now
+
+// judge decides one text against the statement of C05.
+func judge(j Job) Res {
+	res := Res{ID: j.ID}
+
+	phase.Store("run-original")
+
+	orig := runText(j.Src, j.Frag)
+	res.Runs++
+
+	if strings.HasPrefix(orig, compilePrefix) {
+		res.Reject = clip(orig, 200)
+
+		return res
+	}
+
+	res.Accepted = true
+
+	modes := []string{"program", "auto"}
+	if j.Frag {
+		modes = []string{"fragment", "auto"}
+	}
+
+	seen := map[string]bool{}
+
+	for _, mode := range modes {
+		phase.Store("format")
+
+		f1, err := render(j.Src, mode)
+		if err != nil {
+			res.Findings = append(res.Findings, Finding{Kind: "fmt-fails", Mode: mode, Detail: clip(err.Error(), 300)})
+
+			continue
+		}
+
+		if seen[f1] {
+			continue
+		}
+
+		seen[f1] = true
+
+		if f1 != j.Src {
+			res.Changed = true
+		}
+
+		// idempotence
+		f2, err := render(f1, mode)
+		if err != nil {
+			res.Findings = append(res.Findings, Finding{Kind: "not-idempotent", Mode: mode, Fmt: f1,
+				Detail: "formatting the formatted text fails: " + clip(err.Error(), 300)})
+		} else if f2 != f1 {
+			res.Findings = append(res.Findings, Finding{Kind: "not-idempotent", Mode: mode, Fmt: f1,
+				Detail: "second pass gives a different text: " + clip(firstDiff(f1, f2), 300)})
+		}
+
+		// comments
+		if lost := lostComments(j.Src, f1); len(lost) > 0 {
+			res.Findings = append(res.Findings, Finding{Kind: "comment-lost", Mode: mode, Fmt: f1,
+				Detail: fmt.Sprintf("%d comment(s) of the original are not comments of the output: %s", len(lost), clip(strings.Join(lost, " | "), 200))})
+		}
+
+		// behaviour
+		if f1 != j.Src {
+			phase.Store("run-formatted")
+
+			got := runText(f1, j.Frag)
+			res.Runs++
+
+			if normOut(got) != normOut(orig) {
+				d := "original prints " + fmt.Sprintf("%q", clip(orig, 300)) + ", formatted prints " + fmt.Sprintf("%q", clip(got, 300))
+				if strings.HasPrefix(got, compilePrefix) {
+					d = "the formatted text does not compile: " + clip(got, 300)
+				}
+
+				res.Findings = append(res.Findings, Finding{Kind: "changes-program", Mode: mode, Fmt: f1, Detail: d})
+			}
+		}
+	}
+
+	phase.Store("idle")
+
+	return res
+}
+
+func firstDiff(a, b string) string {
+	la, lb := strings.Split(a, "\n"), strings.Split(b, "\n")
+	for i := 0; i < len(la) || i < len(lb); i++ {
+		x, y := "<none>", "<none>"
+		if i < len(la) {
+			x = la[i]
+		}
+
+		if i < len(lb) {
+			y = lb[i]
+		}
+
+		if x != y {
+			return fmt.Sprintf("line %d: %q vs %q", i+1, x, y)
+		}
+	}
+
+	return "texts differ"
+}
+
+// instruction budget of one text (original + formatted runs); the generated
+// programs execute a few thousand instructions.
+const runawayBudget = 30_000_000
+
+// evalWorkerMain is the body of a judging worker process: jobs (JSON lines) on
+// stdin, judgements on fd 3. A text whose runs exceed the instruction budget
+// ends the worker with a "died" record naming the phase; the count is the
+// VM's own instruction counter, not a clock.
+func evalWorkerMain() {
+	proto := os.NewFile(3, "proto")
+	if proto == nil {
+		os.Exit(4)
+	}
+
+	setup()
+
+	enc := json.NewEncoder(proto)
+
+	var (
+		mu      sync.Mutex
+		current atomic.Int64
+		start   atomic.Int64
+	)
+
+	current.Store(-1)
+	phase.Store("idle")
+
+	go func() {
+		for {
+			time.Sleep(100 * time.Millisecond)
+
+			id := current.Load()
+			if id >= 0 && atomic.LoadInt64(&bytecode.InstructionsExecuted)-start.Load() > runawayBudget {
+				mu.Lock()
+				_ = enc.Encode(Res{ID: int(id), Accepted: true, Died: "more than " + fmt.Sprint(runawayBudget) + " instructions in phase " + phase.Load().(string)})
+				os.Exit(3)
+			}
+		}
+	}()
+
+	sc := bufio.NewScanner(os.Stdin)
+	sc.Buffer(make([]byte, 1<<16), 1<<24)
+
+	for sc.Scan() {
+		var j Job
+		if err := json.Unmarshal(sc.Bytes(), &j); err != nil {
+			os.Exit(4)
+		}
+
+		start.Store(atomic.LoadInt64(&bytecode.InstructionsExecuted))
+		current.Store(int64(j.ID))
+
+		r := judge(j)
+
+		current.Store(-1)
+
+		mu.Lock()
+		err := enc.Encode(r)
+		mu.Unlock()
+
+		if err != nil {
+			os.Exit(4)
+		}
+	}
 }
